@@ -124,6 +124,13 @@ def config_cases(tier):
                             'constraints': {'dtScale': 0.05}, 'max_steps': 8000})
                 out.append({'system': 'bin', 'strain': strain, 'temp': temp, 'it': it, 'nphases': nph, 'tf': 20.0,
                             'constraints': {'dtScale': 0.05}, 'max_steps': 8000, 'pbm': pp.PBM_B, 'preload': nph == 1})
+    # (2d) a distribution loaded (after setup) into a matrix far above the solvus: short horizons, the particles dissolve with
+    #      time steps of ~1e-7 s
+    for system in ('bin', 'tern'):
+        for it in ('euler', 'rk4'):
+            for tf in (3e-6, 6e-5):
+                out.append({'system': system, 'temp': 'iso_hot', 'it': it, 'preload': True, 'tf': tf, 'split': 3, 'constraints': {'dtScale': 0.05},
+                            'max_steps': 8000})
     # (3) recording with a fixed grid, all site types, compositions at the edge
     for system in ('bin', 'tern'):
         for site in ['bulk', 'dislocations', 'grain boundaries', 'grain edges', 'grain corners']:
@@ -146,6 +153,8 @@ def fault_cases(tier):
         for it in ('euler', 'rk4'):
             for temp in (['iso', 'hrh', 'iso_hot'] if quick else ['iso', 'hrh', 'heat', 'iso_hot']):   # iso_hot: undersaturated
                 for pre in (False, True):
+                    if pre and temp == 'iso_hot':
+                        continue      # a loaded distribution far above the solvus dissolves with time steps of 1e-7 s: outside the horizon
                     base = {'system': system, 'it': it, 'temp': temp, 'tf': 6.0, 'constraints': {'dtScale': 0.05},
                             'preload': pre, 'max_steps': 3000}
                     for meth in FAULT_METHODS[system]:
